@@ -81,6 +81,54 @@ class Gen:
     def indent(self, lines):
         return [IND + ln for ln in lines]
 
+    def plain(self):
+        r = self.rng
+        return r.choice([f"{self.var()} = {self.atom()}", f"{self.var()} += 1", f"g({self.atom()})", "pass",
+                         f"{self.var()} = {self.atom()} if {self.cond(1)} else {self.atom()}"])
+
+    def noexit_block(self, depth, n=None):
+        """Statements that never leave the enclosing endless loop: no break/return/raise/yield/assert/try."""
+        r = self.rng
+        out = []
+        for _ in range(n or r.choice([1, 1, 2, 3])):
+            c = r.random()
+            self.budget -= 1
+            if depth >= 4 or c < 0.25:
+                out += [self.plain()]
+            elif c < 0.6:
+                out += [f"if {self.cond(1)}:"] + self.indent(self.noexit_block(depth + 1, 1))
+                if r.random() < 0.4:
+                    out += [f"elif {self.cond(1)}:"] + self.indent(self.noexit_block(depth + 1, 1))
+                if r.random() < 0.7:
+                    out += ["else:"] + self.indent(self.noexit_block(depth + 1, 1) + (["continue"] if r.random() < 0.3 else []))
+            elif c < 0.85:
+                head = r.choice(["for i in xs:", f"for {self.var()} in range({self.atom()}):", f"while {self.cond(1)}:", f"while {self.var()}:"])
+                body = self.noexit_block(depth + 1)
+                if r.random() < 0.3:
+                    body = [f"if {self.cond(1)}:", IND + "continue"] + body
+                out += [head] + self.indent(body)
+                if r.random() < 0.2:
+                    out += ["else:"] + self.indent([self.plain()])
+            else:
+                out += [f"match {self.var()}:"]
+                for pat in r.sample(["0", "1 | 2", "[p, q]", "str() as s"], r.choice([1, 2])):
+                    out += [IND + f"case {pat}:"] + self.indent(self.indent(self.noexit_block(depth + 1, 1)))
+                if r.random() < 0.5:
+                    out += [IND + "case _:"] + self.indent(self.indent([r.choice([self.plain(), "continue"])]))
+        return out
+
+    def endless(self, depth):
+        """`while True:` without any way out whose body branches / nests loops; the function may or may
+        not have another exit (an early return in front of the loop)."""
+        r = self.rng
+        out = []
+        if r.random() < 0.5:
+            out += [f"if {self.cond(1)}:", IND + r.choice(["return 0", "return", "return a"])]
+        body = self.noexit_block(depth + 1, r.choice([1, 2, 2, 3]))
+        if all(not ln.startswith(("if ", "for ", "while ", "match ")) for ln in body):
+            body += [f"if {self.cond(1)}:"] + self.indent([self.plain()]) + ["else:"] + self.indent([self.plain()])
+        return out + ["while True:"] + self.indent(body)
+
     def exc_loop(self, depth, in_loop):
         """Endless loop that is continued / left only through exception handlers, optionally inside
         a `with` and behind an early return (value-less CDG cycles once the early return is excluded)."""
@@ -115,6 +163,8 @@ class Gen:
             return [self.simple()]
         if self.allow_try and r.random() < 0.08:
             return self.exc_loop(depth, in_loop)
+        if r.random() < 0.05:
+            return self.endless(depth)
         if c < 0.27:
             ch = ["return " + self.atom(), "return", "raise ValueError(a)"]
             if in_loop:
@@ -180,6 +230,10 @@ class Gen:
 
 def gen_function(rng, name="f", allow_try=True, size=None):
     """Source lines of one function definition."""
+    if rng.random() < 0.06:
+        g = Gen(rng, max_depth=3, budget=12, allow_yield=False, allow_try=allow_try)
+        pre = g.block(0, False, n=1) if rng.random() < 0.3 else []
+        return [f"def {name}(a, b=0, c=None, x=1, y=2, xs=(), f=len, g=print):"] + g.indent(pre + g.endless(0))
     allow_yield = rng.random() < 0.3
     g = Gen(rng, max_depth=rng.choice([1, 2, 3, 4]), budget=size or rng.choice([2, 4, 8, 14, 24]),
             allow_yield=allow_yield, allow_try=allow_try)
